@@ -95,7 +95,7 @@ def spec_asg(line):
         return False
     except (ValueError, RecursionError, MemoryError):
         return None
-    if not node.body:
+    if len(node.body) != 1:        # several statements on the line (`a = 1; b()`): not taken since the repair of the silent drops
         return False
     st = node.body[0]
     if isinstance(st, ast.Assign):
@@ -120,7 +120,10 @@ def spec_asg(line):
     return None
 
 
-EXTRA_LINES = ["break", "continue", "return", "return x + 1", "returned = 5", "return_led.on()", "breakx", "pass", "print(1)", "x = 5", "x += 1",
+EXTRA_LINES = ["import os", "import os as o", "import os; x = 5", "import os;", "from math import sin", "from math import sin; x = 5", "from a;b import c",
+               "from math import (sin, cos)", "from math import", "import", "importx y", "global x", "global x, y", "global x ,y2", "global x; y = 5", "global x;",
+               "global", "globalx", "global 1x", "pass; x = 5", "pass;", "pass x", "nonlocal x", "del x", "assert x", "mon.close()", "mon.flush()",
+               "break", "continue", "return", "return x + 1", "returned = 5", "return_led.on()", "breakx", "pass", "print(1)", "x = 5", "x += 1",
                "a, b = 1, 2", "x == 5", "x.y = 3", "x[0] = 1", "target(\"COM3\")", "target(port=\"/dev/ttyUSB0\", upload=False)", "y = target(\"a\")",
                "x.target(\"a\")", "mytarget(\"a\")", "if target(\"a\"):", "target ( 'COM4' )", "target()", "def target(x):", "led = Led(13)  ",
                "led=Led(13)", "led = Led (13)", "led = Led( 13 )", "led = Ledx(13)", "b = Button(2, on_click=f)", "p = Potentiometer(\"A0\")",
